@@ -32,7 +32,7 @@ Scaled18 == { <<"Bin", "*", Lt(DD(FALSE, <<5>>, -1)), Lt(DD(FALSE, <<4>>, 0))>>,
               <<"Bin", "-", Lt(DD(FALSE, <<2,5>>, -1)), Lt(DD(FALSE, <<5>>, -1))>>, <<"Bin", "*", Lt(DD(TRUE, <<1,5>>, -1)), Lt(DD(FALSE, <<2>>, 0))>>,
               <<"Bin", "-", Lt(DD(FALSE, <<1,5>>, -1)), Lt(DD(FALSE, <<1,5>>, -1))>> }
 GroupsC18 == { <<"unary", f>> : f \in {"abs", "ceil", "floor", "round", "roundBank", "toInt", "toFloat", "finite"} } \cup { <<"scaled">> }
-             \cup { <<"law">>, <<"conv">>, <<"tilde">> } \cup { <<"maxmin", a>> : a \in Small } \cup { <<"bit", a>> : a \in Ints18 }
+             \cup { <<"law">>, <<"conv">>, <<"tilde">>, <<"bitscaled">> } \cup { <<"maxmin", a>> : a \in Small } \cup { <<"bit", a>> : a \in Ints18 }
 GroupProgramsC18(g) ==
   CASE g[1] = "unary" -> { C(g[2], <<Lt(x)>>) : x \in Grid }
     [] g[1] = "scaled" -> { C(f, <<e>>) : f \in {"abs", "ceil", "floor", "round", "roundBank", "toInt", "toFloat", "finite"}, e \in Scaled18 }
@@ -46,6 +46,10 @@ GroupProgramsC18(g) ==
                           \cup { C(f, <<Lt(b), Lt(g[2]), Lt(c), Lt(g[2]), Lt(b), Lt(c)>>) : f \in {"max", "min"}, b \in {DD(FALSE, <<1>>, 0), DD(TRUE, <<2,5>>, -1)}, c \in {DD(FALSE, <<1>>, 1), DD(FALSE, <<>>, 0)} }
                           \cup { <<"Call", Id(f), <<Lt(g[2]), <<"Arr", <<Lt(b), Lt(c)>>>>>>, TRUE>> : f \in {"max", "min"}, b \in {DD(FALSE, <<1>>, 0), DD(TRUE, <<2,5>>, -1)}, c \in {DD(FALSE, <<1>>, 1), DD(FALSE, <<>>, 0)} }
     [] g[1] = "bit" -> { <<"Bin", op, P(Lt(g[2])), P(Lt(b))>> : op \in {"&", "|", "^"}, b \in Ints18 }
+    [] g[1] = "bitscaled" -> { <<"Bin", op, P(e), P(Lt(b))>> : op \in {"&", "|", "^"}, e \in Scaled18, b \in {DD(FALSE, <<7>>, 0), DD(FALSE, <<1,0,2,3>>, 0), DD(TRUE, <<1>>, 0)} }
+                            \cup { <<"Bin", op, P(Lt(b)), P(e)>> : op \in {"&", "|", "^"}, e \in Scaled18, b \in {DD(FALSE, <<7>>, 0), DD(FALSE, <<1,0,2,3>>, 0)} }
+                            \cup { <<"Bin", op, Id(x), P(Lt(b))>> : op \in {"&", "|", "^"}, x \in {"sc6", "sc1e3"}, b \in {DD(FALSE, <<1>>, 0), DD(FALSE, <<1,0,2,3>>, 0)} }
+                            \cup { <<"Pre", "~", P(e)>> : e \in Scaled18 } \cup { <<"Pre", "~", Id(x)>> : x \in {"sc6", "sc1e3"} }
     [] g[1] = "tilde" -> { <<"Pre", "~", P(Lt(a))>> : a \in Ints18 } \cup { <<"Pre", "~", <<"Pre", "~", P(Lt(a))>>>> : a \in Ints18 }
 
 \* ---- what the names say, on the specification
